@@ -9,6 +9,8 @@ MAXOPS = {"quick": 70, "thorough": 140}
 
 def scenario(tier):
     def fn(b, sym):
+        if sym.flag("manifest_name_of_255_characters"):
+            return long_name(b, sym)
         b.mkfile("R/a.txt", 1)
         b.mkfile("R/d/b.txt", 2)
         nested = sym.flag("nested_history_at_d")
@@ -85,6 +87,39 @@ def scenario(tier):
             if cmd == "verify" and prior > 0:
                 b.require(r2.exit in (0, 21), "next-verify-result", "%s: verify exits %s (%s)" % (tag, r2.exit, r2.exc))
     return fn
+
+
+def long_name(b, sym):
+    """a history folder whose name makes the new manifest's file name exactly 255 characters (the temporary name would be longer)"""
+    short, long_ = "L" * 223, "L" * 227
+    b.mkfile(short + "/a.txt", 1)
+    r = b.run("create", root=short, h=["md5"])
+    b.require(r.exit == 0, "setup-create", str(r))
+    b.rename(short, long_)
+    names = b.manifest_names(long_)
+    tok = {n: b.file_token(posixpath.join(long_, "ascmhl", n)) for n in names}
+    chain0 = b.chain(long_)
+    crash_at = sym.choose("crash_at_long", list(range(0, 30)))
+    r = b.run("create", root=long_, h=["md5"], crash_at=crash_at, torn=sym.flag("torn_write"))
+    if r.exit != "killed":
+        sym.assume(False)
+    tag = "create killed at operation %d in a folder with a 227 character name" % crash_at
+    for n in names:
+        t = b.file_token(posixpath.join(long_, "ascmhl", n))
+        b.require(truth(t[0] == tok[n][0]), "committed-manifest-modified", "%s: %s" % (tag, n[:20]))
+    ch = b.chain(long_)
+    b.require(ch is not None and len(ch) >= len(chain0), "chain-lost-committed-generation", tag)
+    for n in b.manifest_names(long_):
+        if n in names:
+            continue
+        try:
+            b.read_manifest_at(posixpath.join(long_, "ascmhl", n))
+        except Exception as ex:
+            if type(ex).__name__ not in ("XMLSyntaxError", "ParseError", "ValueError"):
+                raise
+            b.require(False, "half-written-manifest-under-final-name", "%s: new manifest (name of %d characters) is not well-formed" % (tag, len(n)))
+    r2 = b.run("verify", root=long_)
+    b.require(r2.exit in (0, 21) and r2.exc is None or r2.exit == 21, "next-command-aborts", "%s: verify afterwards exits %s (%s)" % (tag, r2.exit, r2.exc))
 
 
 LEVEL_NOTE = ("The kill is modelled as a process kill: operations (mkdir, open for write, each write(), flush, close, replace, remove) take effect "
